@@ -38,6 +38,7 @@ pub fn all() -> Vec<(&'static str, Blueprint)> {
         ("x14_two_at_once", x14_two_at_once()),
         ("x15_many_at_once", x15_many_at_once()),
         ("x16_nested_override", x16_nested_override()),
+        ("x17_borrowck", x17_borrowck()),
     ]
 }
 
@@ -183,7 +184,7 @@ pub fn v08_explicit() -> Blueprint {
     bp.import(from![pavex]);
     bp.config(k::SERVER_CONFIG).never_clone();
     bp.config(k::DB_CONFIG).include_if_unused();
-    bp.prebuilt(k::BUILD_INFO).never_clone();
+    bp.prebuilt(k::BUILD_INFO).clone_if_necessary();
     bp.prebuilt(k::STARTUP_BANNER);
     bp.constructor(k::CLOCK).never_clone();
     bp.constructor(k::METRICS);
@@ -393,5 +394,18 @@ pub fn x16_nested_override() -> Blueprint {
         bp.route(admin::ADMIN_STATS);
         bp
     });
+    bp
+}
+
+/// A handler consumes by value a singleton that may never be cloned.
+pub fn x17_borrowck() -> Blueprint {
+    let mut bp = Blueprint::new();
+    bp.import(from![pavex]);
+    bp.prebuilt(k::BUILD_INFO).never_clone();
+    bp.prebuilt(k::STARTUP_BANNER);
+    bp.constructor(k::CLOCK).never_clone();
+    bp.constructor(k::METRICS);
+    bp.route(admin::ADMIN_STATS);
+    bp.fallback(admin::ADMIN_FALLBACK);
     bp
 }
